@@ -82,7 +82,7 @@ def check_C01(run):
 
 def check_C02(run):
     q = Q(run)
-    mc = [dict(name='mc-c02', consts=dict(Keys='{1}', MaxTs='2', Metas='{0, 1}', MaxRecs='0'), max_ops=3 if q else 4, max_blob=1 if q else 2,
+    mc = [dict(name='mc-c02', consts=dict(Keys='{1}', MaxTs='2', Metas='{0, 1}', MaxRecs='0'), max_ops=3 if q else 4, max_blob=1,
                acts=['write', 'delete', 'close_active', 'create_active'], timeout=3600),
           dict(name='mc-c02-3m', consts=dict(Keys='{1}', MaxTs='2', Metas='{0, 1, 2}', MaxRecs='0'), max_ops=2 if q else 3, max_blob=2,
                acts=['write', 'delete', 'close_active', 'restore_active'], timeout=3600),
@@ -91,21 +91,21 @@ def check_C02(run):
     suites = [
         dict(name='meta', consts=dict(Keys='{1}', MaxTs='2', Metas='{0, 1, 2}'), genlen=4,
              acts=['write', 'delete', 'close_active', 'restore_active'], nkeys=1,
-             sample=(1, 16) if q else (1, 1)),
+             sample=(1, 16) if q else (1, 4)),
         dict(name='nodup', consts=dict(Keys='{1}', MaxTs='2', Metas='{0, 1}', AllowDup='FALSE'), genlen=4 if q else 5,
              acts=['write', 'delete', 'close_active'], nkeys=1, hcfg_overrides=dict(allow_dup=False),
-             sample=(1, 4) if q else (1, 2)),
+             sample=(1, 4) if q else (1, 6)),
         dict(name='2k-placement', consts=dict(Keys='{1, 2}', MaxTs='2'), genlen=4 if q else 5,
              acts=['write', 'delete', 'close_active', 'create_active', 'restore_active'], nkeys=2,
-             sample=(1, 12) if q else (1, 4)),
+             sample=(1, 12) if q else (1, 12)),
         dict(name='sim', consts=dict(Keys='{1, 2}', MaxTs='3', Metas='{0, 1, 2}'), genlen=24,
              acts=['write', 'delete', 'restart', 'force_update'] + LIFE3,
              restarts_set=store.restarts(dmgs=('keep', 'lose')), nkeys=2,
-             simulate=300 if q else 6000, workers=1 if q else 8),
+             simulate=300 if q else 3000, workers=1 if q else 8),
         dict(name='sim-nodup', consts=dict(Keys='{1, 2}', MaxTs='3', Metas='{0, 1, 2}', AllowDup='FALSE'), genlen=20,
              acts=['write', 'delete', 'restart'] + LIFE3, hcfg_overrides=dict(allow_dup=False),
              restarts_set=store.restarts(dmgs=('keep',)), nkeys=2,
-             simulate=150 if q else 4000, workers=1 if q else 8),
+             simulate=150 if q else 2000, workers=1 if q else 8),
     ]
     return store_check(run, mc, suites)
 
